@@ -81,6 +81,10 @@ func (d *Provider) Block() {
 	}
 	for key, defaultVal := range d.defaultInstances {
 		if _, ok := d.instances[key]; !ok {
+			if _, ok := d.factories[key]; ok {
+				// an explicit factory wins over a default instance
+				continue
+			}
 			if d.autoclean {
 				delete(d.defaultFactories, key)
 				delete(d.factories, key)
